@@ -316,6 +316,9 @@ func joinLeanStrs(xs []string) string {
 	return strings.Join(parts, ", ")
 }
 
+// dumpInventory: the `for`-loop inventory of lexer and parser with progress classes (harness/loops.go).
+func dumpInventory(b *strings.Builder) { writeParserLoops(b, repoRoot()) }
+
 func cmdDump(args []string) int {
 	if len(args) < 1 {
 		fmt.Fprintln(os.Stderr, "usage: hv dump <outdir>")
@@ -336,6 +339,7 @@ func cmdDump(args []string) int {
 	emit("Tokens", dumpTokens)
 	emit("Enums", dumpEnums)
 	emit("Members", dumpMembers)
+	emit("Inventory", dumpInventory)
 	emit("MapRanges", dumpMapRanges) // harness/inventory.go (C14)
 	fmt.Println("changed:", strings.Join(changed, ","))
 	return 0
